@@ -3,15 +3,18 @@
    Models: coq/model/CoreDump.v (dump), coq/model/CoreLoad.v (load); the domain of the
    statement: coq/model/CoreRT.v (rtd = conforming values of the supported grammar with the
    leaf laws and representation invariants spelled out). *)
-From DW Require Import CoreRT T_CoreDumpHooks CoreRoundTrip StrConvProofs.
+From DW Require Import CoreRT T_CoreDumpHooks CoreRoundTrip CoreRTAny CoreRTLists StrConvProofs.
 From Coq Require Import ZArith.
 
 (* For EVERY stdlib behaviour `orc`, key transform / tag key (dc, lc), annotation t and value v of
    the round-trip domain: the model of asdict succeeds and the model of fromdict maps its result
    back to v - same value, same concrete types (pv equality is type-exact).
+   rtd covers TypedDict (total / non-total, Required / NotRequired), tagged dataclasses inside Unions
+   (explicit or auto-assigned tags, any member count, injective tag assignment) and containers at `Any`
+   positions (exactly the values the dumper maps to themselves) - at every nesting position.
    `_partial`: not covered by rtd, hence not proved here (correspondence + direct predicates only):
-   TypedDict, tagged dataclasses inside a Union, containers at `Any` positions, and the text
-   formats; bytes are outside the property (F4); negative timedelta is refuted below (F3). *)
+   the text formats (json / PyYAML / tomllib are oracles), untyped namedtuple; bytes are outside the
+   property (F4); negative timedelta is refuted below (F3). *)
 Theorem C01_roundtrip_partial :
   forall orc dc lc t v, d_dt dc = DtIso -> rtd orc dc lc t v ->
   exists w, dump dump_hooks_v0 dc v = Ok w /\ load orc lc t w = Ok v.
@@ -20,6 +23,95 @@ Proof.
   exists w. split; assumption.
 Qed.
 Print Assumptions C01_roundtrip_partial.
+
+(* ---- the three regions added to the domain, each stated on its own ------------------------------------
+
+   (1) TypedDict.  For EVERY TypedDict declaration with distinct key names (required keys `req`, non-required
+   keys `opt`: total=False / NotRequired), every choice opt' of the optional keys that are present, and values
+   that are in the domain at their key's type (any type of the grammar, at any nesting): the dict dumps through
+   dump_with_dict (keys untouched by the key transform, values by runtime type) and TypedDictParser loads it
+   back: required keys read, optional keys read when present, nothing else. *)
+Theorem C01_roundtrip_typeddict :
+  forall orc dc lc tid req opt opt' kvs1 kvs2, d_dt dc = DtIso ->
+  Forall2 (fun kt kv => fst kv = VStr (fst kt) /\ rtd orc dc lc (snd kt) (snd kv)) req kvs1 ->
+  sublist opt' opt ->
+  Forall2 (fun kt kv => fst kv = VStr (fst kt) /\ rtd orc dc lc (snd kt) (snd kv)) opt' kvs2 ->
+  NoDup (map fst req ++ map fst opt) ->
+  exists w, dump dump_hooks_v0 dc (VDict DDict false (kvs1 ++ kvs2)) = Ok w /\
+            load orc lc (TTypedDict tid req opt) w = Ok (VDict DDict false (kvs1 ++ kvs2)).
+Proof.
+  intros orc dc lc tid req opt opt' kvs1 kvs2 Hiso H1 Hs H2 Hn.
+  destruct (rt_main orc dc lc Hiso _ _ (RTD orc dc lc tid req opt opt' kvs1 kvs2 H1 Hs H2 Hn)) as (w & Hd & Hl & _).
+  exists w. split; assumption.
+Qed.
+Print Assumptions C01_roundtrip_typeddict.
+
+(* (2) Tagged dataclasses inside a Union.  For EVERY Union `ts` (any number of members) that is admissible -
+   non-dataclass members pairwise distinguishable by wire type, no `dict[...]` member beside dataclass members,
+   every dataclass member tagged and the tag assignment injective (union_ok) -, every dataclass member
+   `TData c fts` of it and every instance whose FIELD VALUES are in the domain at their annotated types
+   (so the field-level coercions of the class's own loader are included): the dumped dict carries the tag,
+   no parser of the exact-type scan claims it, tag_to_parser[tag] is that class's loader, and the instance
+   comes back.  This is the C13 dispatch statement composed with the C01 field-level round trip. *)
+Theorem C01_roundtrip_tagged_union :
+  forall orc dc lc ts c fts xs, d_dt dc = DtIso ->
+  In (TData c fts) ts -> union_ok ts = true ->
+  keys_ok dc lc c = true -> List.length (c_fields c) = List.length fts ->
+  Forall2 (fun ft x => rtd orc dc lc (fst ft) x) fts xs ->
+  exists w, dump dump_hooks_v0 dc (VInst c xs) = Ok w /\ load orc lc (TUnion ts) w = Ok (VInst c xs).
+Proof.
+  intros orc dc lc ts c fts xs Hiso Hin Hok Hk Hlen H2.
+  assert (Hr : rtd orc dc lc (TUnion ts) (VInst c xs)).
+  { eapply RUnion; [exact Hin | exact Hok | discriminate | apply RData; assumption]. }
+  destruct (rt_main orc dc lc Hiso _ _ Hr) as (w & Hd & Hl & _). exists w. split; assumption.
+Qed.
+Print Assumptions C01_roundtrip_tagged_union.
+
+(* a member of an admissible Union that is a dataclass IS tagged, and tags of different members differ *)
+Theorem C01_union_ok_tagged :
+  forall ts c fts, union_ok ts = true -> In (TData c fts) ts ->
+  (exists tg, c_tag c = Some tg) /\ str_nodup (tags_of ts) = true /\ existsb is_wdict ts = false.
+Proof.
+  intros ts c fts Hok Hin. unfold union_ok in Hok. apply andb_true_iff in Hok as [Hok Hdm].
+  apply andb_true_iff in Hok as [Hd _].
+  assert (Hisd : existsb is_data ts = true) by (apply existsb_exists; exists (TData c fts); split; [assumption | reflexivity]).
+  unfold data_members_ok in Hdm. rewrite Hisd in Hdm. cbn [negb orb] in Hdm. apply andb_true_iff in Hdm as [Hnw Hnd].
+  apply negb_true_iff in Hnw.
+  destruct (union_member_wire ts [] (TData c fts) Hd Hin) as [[k Hk]|(c' & fts' & tg & E & Htg)]; [discriminate | discriminate |].
+  inversion E; subst. eauto.
+Qed.
+Print Assumptions C01_union_ok_tagged.
+
+(* (3) Containers under Any.  The loader of an `Any` annotation is the identity, so the round trip at an Any
+   position holds exactly when the dumper maps the runtime value to itself.  `anyv` is that set, proved in BOTH
+   directions: JSON scalars, list, tuple, dict, OrderedDict (keys dumped like values), NamedTuple instances and
+   int/str-mixin Enum members of such values at every nesting round-trip; every other well-formed runtime value
+   (set / frozenset / deque -> list, defaultdict -> dict, plain Enum -> value, UUID / Decimal / Path / date /
+   datetime / time / timedelta / bytes -> str, dataclass instance -> dict) does NOT come back.  Decision taken
+   from the property text ("instances whose field values match their annotations", "same concrete value types",
+   "payloads those formats can carry"): the property's domain at an Any position is what the wire can give back
+   with the same types - json_any (what a JSON parser itself produces) for every text format, anyv for the
+   dict-level fromdict(asdict(x)); a datetime / set / dataclass under Any is a conforming value the declared type
+   carries no information to rebuild, and is outside the property (no finding). *)
+Theorem C01_roundtrip_any_containers :
+  forall orc dc lc v, anyv v = true ->
+  exists w, dump dump_hooks_v0 dc v = Ok w /\ load orc lc TAny w = Ok v.
+Proof. intros orc dc lc v H. exists v. split; [apply dump_any; exact H | reflexivity]. Qed.
+Print Assumptions C01_roundtrip_any_containers.
+
+Theorem C01_any_exact :
+  forall orc dc lc v, wfv v = true ->
+  ((exists w, dump dump_hooks_v0 dc v = Ok w /\ load orc lc TAny w = Ok v) <-> anyv v = true).
+Proof.
+  intros orc dc lc v Hw. split.
+  - intros (w & Hd & Hl). cbn [load] in Hl. inversion Hl; subst. eapply dump_fix_any; eassumption.
+  - intros H. exists v. split; [apply dump_any; exact H | reflexivity].
+Qed.
+Print Assumptions C01_any_exact.
+
+Theorem C01_any_json : forall v, json_any v = true -> anyv v = true.
+Proof. exact json_any_anyv. Qed.
+Print Assumptions C01_any_json.
 
 (* The domain is a set of conforming values: rtd only ADDS conditions to `conforms`. *)
 Theorem C01_domain_conforms : forall orc dc lc t v, rtd orc dc lc t v -> conforms t v.
@@ -92,3 +184,62 @@ Example C01_example_dump :
          (VStr (S "SubItem"), VDict DDict false [(VStr (S "WhenAt"), VStr (S "2020-01-01T00:00:00Z"))]);
          (VStr (S "OptVal"), VSeq SList false [VInt 7])]).
 Proof. reflexivity. Qed.
+
+(* ---- non-vacuity of the three added regions ------------------------------------------------------ *)
+(* (1) a non-total TypedDict with a nested list value, one optional key absent, inside a dataclass field *)
+Definition ex_td : ty :=
+  TTypedDict 7 [(S "name", TStr); (S "ids", TSeq SList TInt)] [(S "note", TOptional TStr); (S "rank", TInt)].
+Definition ex_td_v : pv :=
+  VDict DDict false ([(VStr (S "name"), VStr (S "n")); (VStr (S "ids"), VSeq SList false [VInt 1; VInt 2])] ++ [(VStr (S "rank"), VInt 3)]).
+Example C01_example_typeddict : rtd ex_orc ex_dc ex_lc ex_td ex_td_v.
+Proof.
+  apply RTD with (opt' := [(S "rank", TInt)]).
+  - constructor; [split; [reflexivity | constructor]|]. constructor; [|constructor].
+    split; [reflexivity|]. apply RSeq; [reflexivity | repeat constructor | discriminate].
+  - apply sub_drop. apply sub_keep. apply sub_nil.
+  - constructor; [split; [reflexivity | constructor] | constructor].
+  - cbn. repeat (constructor; [cbn; intuition discriminate|]). constructor.
+Qed.
+Example C01_example_typeddict_rt :
+  bind (dump dump_hooks_v0 ex_dc ex_td_v) (load ex_orc ex_lc ex_td) = Ok ex_td_v.
+Proof. reflexivity. Qed.
+
+(* (2) Union[ClsA, int, ClsB, None] with tags; a ClsA instance whose field is a set *)
+Definition ex_ca := mkC 11 (S "ClsA") [mkF (S "my_ids") None] (Some (S "A")).
+Definition ex_cb := mkC 12 (S "ClsB") [mkF (S "txt") None] (Some (S "B")).
+Definition ex_tu : list ty :=
+  [TData ex_ca [(TSeq SSet TInt, None)]; TInt; TData ex_cb [(TStr, None)]; TNone].
+Definition ex_tu_v : pv := VInst ex_ca [VSeq SSet false [VInt 3; VInt 1]].
+Example C01_example_union_ok : union_ok ex_tu = true.
+Proof. reflexivity. Qed.
+Example C01_example_tagged_union : rtd ex_orc ex_dc ex_lc (TUnion ex_tu) ex_tu_v.
+Proof.
+  eapply RUnion with (t := TData ex_ca [(TSeq SSet TInt, None)]); [cbn; tauto | reflexivity | discriminate |].
+  apply RData; [reflexivity | reflexivity |]. constructor; [|constructor]. cbn [fst].
+  apply RSeq; [reflexivity | repeat constructor | intros _; split; reflexivity].
+Qed.
+Example C01_example_tagged_union_rt :
+  bind (dump dump_hooks_v0 ex_dc ex_tu_v) (load ex_orc ex_lc (TUnion ex_tu)) = Ok ex_tu_v /\
+  dump dump_hooks_v0 ex_dc ex_tu_v =
+    Ok (VDict DDict false [(VStr (S "MyIds"), VSeq SList false [VInt 3; VInt 1]); (VStr (S "__tag__"), VStr (S "A"))]).
+Proof. split; reflexivity. Qed.
+(* outside union_ok: two members with one tag (the later class wins: the instance comes back as the wrong class) *)
+Definition ex_cb' := mkC 12 (S "ClsB") [mkF (S "my_ids") None] (Some (S "A")).
+Example C01_example_tag_collision :
+  union_ok [TData ex_ca [(TSeq SSet TInt, None)]; TData ex_cb' [(TSeq SSet TInt, None)]] = false /\
+  bind (dump dump_hooks_v0 ex_dc ex_tu_v)
+       (load ex_orc ex_lc (TUnion [TData ex_ca [(TSeq SSet TInt, None)]; TData ex_cb' [(TSeq SSet TInt, None)]]))
+  = Ok (VInst ex_cb' [VSeq SSet false [VInt 3; VInt 1]]).
+Proof. split; reflexivity. Qed.
+
+(* (3) nested containers under Any; what is outside *)
+Definition ex_any_v : pv :=
+  VDict DDict false [(VStr (S "k"), VSeq SList false [VInt 1; VNone; VDict DDict false [(VStr (S "z"), VFloat (S "0x1.8p+0"))]]);
+                     (VStr (S "t"), VSeq STuple false [VBool true; VStr (S "x")])].
+Example C01_example_any : anyv ex_any_v = true /\ rtd ex_orc ex_dc ex_lc TAny ex_any_v.
+Proof. split; [reflexivity | apply RAny; reflexivity]. Qed.
+Example C01_example_any_outside :
+  anyv (VSeq SSet false [VInt 1]) = false /\ anyv (VTok ex_d) = false /\ anyv (VDict DDefault false []) = false /\
+  json_any (VSeq STuple false [VInt 1]) = false /\
+  bind (dump dump_hooks_v0 ex_dc (VSeq SSet false [VInt 1])) (load ex_orc ex_lc TAny) = Ok (VSeq SList false [VInt 1]).
+Proof. repeat split; reflexivity. Qed.
